@@ -2,8 +2,13 @@ package c02
 
 import (
 	"bytes"
+	"crypto/sha256"
+	"encoding/base32"
+	"encoding/hex"
 	"fmt"
+	"math/big"
 	"sort"
+	"strings"
 
 	"github.com/anyproto/any-sync/commonspace/object/tree/treechangeproto"
 )
@@ -46,7 +51,7 @@ func (h *H) mutants(V *built, specs []Mut, vAcl int) ([]mutant, error) {
 
 	var out []mutant
 	add := func(i int, data []byte, id, class, desc string, signed bool) {
-		if specs[i].Keep {
+		if specs[i].Keep && specs[i].Kind != "reenc" {
 			id = V.raw.Id
 			class += "-same-id"
 			desc += " (carrying the original's id)"
@@ -101,6 +106,10 @@ func (h *H) mutants(V *built, specs []Mut, vAcl int) ([]mutant, error) {
 				id, how = cidOf(rtc.Payload), "the hash of the payload alone"
 			}
 			add(i, append([]byte(nil), orig...), id, "id-replaced", "id replaced by "+how, false)
+		case "reenc":
+			// the genuine bytes under another ENCODING of the genuine id (same sha2-256 digest)
+			id, how := reencode(orig, m.B)
+			add(i, append([]byte(nil), orig...), id, "id-reencoded", "id re-encoded as "+how+" (same digest)", false)
 		case "sig":
 			s := append([]byte(nil), rtc.Signature...)
 			s[m.A%len(s)] ^= mask
@@ -205,4 +214,49 @@ func (h *H) mutants(V *built, specs []Mut, vAcl int) ([]mutant, error) {
 		}
 	}
 	return out, nil
+}
+
+const b58 = "123456789ABCDEFGHJKLMNPQRSTUVWXYZabcdefghijkmnopqrstuvwxyz"
+
+// base58 (bitcoin alphabet), written here so the harness does not lean on the cid libraries.
+func base58(in []byte) string {
+	n := new(big.Int).SetBytes(in)
+	radix, zero, mod := big.NewInt(58), big.NewInt(0), new(big.Int)
+	var out []byte
+	for n.Cmp(zero) > 0 {
+		n.DivMod(n, radix, mod)
+		out = append(out, b58[mod.Int64()])
+	}
+	for _, b := range in {
+		if b != 0 {
+			break
+		}
+		out = append(out, b58[0])
+	}
+	for i, j := 0, len(out)-1; i < j; i, j = i+1, j-1 {
+		out[i], out[j] = out[j], out[i]
+	}
+	return string(out)
+}
+
+// reencode renders the content id of data in another codec / multibase / cid version.
+func reencode(data []byte, sel int) (string, string) {
+	sum := sha256.Sum256(data)
+	mhash := append([]byte{0x12, 0x20}, sum[:]...)
+	v1 := func(codec byte) []byte { return append([]byte{0x01, codec}, mhash...) }
+	b32 := base32.StdEncoding.WithPadding(base32.NoPadding)
+	switch sel % 6 {
+	case 0:
+		return "b" + strings.ToLower(b32.EncodeToString(v1(0x55))), "CIDv1 raw codec, base32 (bafkrei...)"
+	case 1:
+		return "z" + base58(v1(0x71)), "CIDv1 dag-cbor, base58btc"
+	case 2:
+		return base58(mhash), "CIDv0 (Qm...)"
+	case 3:
+		return "B" + b32.EncodeToString(v1(0x71)), "CIDv1 dag-cbor, upper-case base32"
+	case 4:
+		return "f" + hex.EncodeToString(v1(0x71)), "CIDv1 dag-cbor, base16"
+	default:
+		return "b" + strings.ToLower(b32.EncodeToString(v1(0x70))), "CIDv1 dag-pb codec, base32"
+	}
 }
